@@ -12,9 +12,9 @@ import json
 import os
 import struct
 
-from vlib import core
+from vlib import core, semprop, proggen
 
-HARNESS = "c06"
+HARNESS = ["c06", "sem"]
 
 TB = ("Coq 8.16.1 kernel and vm_compute; hand-written Gallina model of pkg/runtime/scope.go and the vm.go wrappers tied "
       "to /repo by the per-run correspondence check (Go harness built -tags verif from the working tree, model evaluated "
@@ -32,14 +32,21 @@ CLAIM = dict(
           "probe programs (nested 如果/每当/遍历, methods with 输入, recursion, shadowing, use before declaration / after block "
           "end, redeclaration, assignment to 恒为 / 输入 / 得到 / method / import / predefined names, handled exceptions within "
           "and across modules) must give the result or error code 42/43/44 that block scoping prescribes, and every "
-          "module's scope depth must be back to 0 after a failed run."),
+          "module's scope depth must be back to 0 after a failed run. Evaluator level (section 'program level' of "
+          "coq/props/C06.v, about the evaluator model Sem): for every program, fuel and nesting a finished block — ended normally, by "
+          "输出, by a loop signal or by an error — leaves every name resolving to the symbol it resolved to before (inner declarations "
+          "gone, shadowed names back), every constant keeps its value across any block and any call, a call only adds 得到 bindings "
+          "of the caller's own block, assignment to a constant is refused with 44 and changes nothing; Sem is tied to the interpreter "
+          "in this check by generated scoping-probe programs (dead names read / assigned / redeclared, shadowing of variables and "
+          "constants in 如果 / 每当 / 遍历 blocks, assignment to constants, 得到 results and definitions) run through both."),
     note=TB + ("well-formedness of histories (EndScope never outnumbers BeginScope, no nil element stored, module ids >= 0) "
                "is a hypothesis of the theorems, discharged for Begin/defer-End disciplines by C06_paired_histories_balanced; "
-               "the evaluator itself is modelled separately (Sem). Program-level expectations come from the Python reference, "
+               "the evaluator-level theorems are about Sem (one module; they rest, through Flocq, on the four standard-library "
+               "axioms named in the evidence). Probe-program expectations come from the Python reference, "
                "not from a verified model; constructs on which the property text is silent (callee sees caller's names, "
                "parameter block vs body block, loop variables, what a handler sees, whether runtime errors are catchable) are "
                "not judged. No axioms."),
-    technique="Coq proof (refinement by induction over operation histories with an abstraction function) + model/implementation correspondence by vm_compute + reference-based probe differential",
+    technique="Coq proof (refinement by induction over operation histories with an abstraction function; control-state balance invariant of the evaluator by induction on fuel) + model/implementation correspondence by vm_compute + reference-based probe differential",
     design="5/C06")
 
 IMPORTS = ("From Coq Require Import List ZArith Bool Uint63. Import ListNotations.\n"
@@ -1269,9 +1276,26 @@ def load_corpus():
     return []
 
 
+SEM_PROFILES = [
+    (3, proggen.Profile(scope_faults=5.0, funcs=1.5, classes=0.6, control=1.2, exceptions=0.4, collections=0.4, markers=0.4, type_errors=0.0)),
+    (1, proggen.Profile(scope_faults=2.5, funcs=2.0, classes=1.5, exceptions=1.2, markers=0.5)),
+]
+SEM_WHAT = "names do not obey block scoping / constness as the evaluator model (Sem) prescribes"
+
+
+def run_sem(chk, replay=None):
+    """Part 3: the evaluator model Sem (about which the program-level theorems of props/C06.v speak) against the interpreter on
+    generated programs that probe scoping: reads / assignments / redeclarations of names whose block has ended, shadowing of
+    variables and constants inside 如果 / 每当 / 遍历 blocks, assignment to 恒为 names, parameters, 得到 results and definitions."""
+    semprop.run_property(chk, "C06", "c06s", SEM_PROFILES, 90, 1200, replay=replay, what=SEM_WHAT)
+
+
 def run(chk, replay=None):
     rng = chk.rng
     quick = chk.tier == "quick"
+    if replay is not None and replay.get("kind") == "program":
+        run_sem(chk, replay)
+        return
 
     vm_h, sc_h, progs = [], [], []
     for c in load_corpus():
@@ -1309,6 +1333,8 @@ def run(chk, replay=None):
     for level, hs in (("vm", vm_h), ("scope", sc_h)):
         check_histories(chk, level, [h for _, h in hs], [lab for lab, _ in hs])
     check_programs(chk, progs)
+    if replay is None:
+        run_sem(chk)
 
     bysig = {}
     for v in chk.violations:
